@@ -43,6 +43,31 @@ def parse_bound(tok):
     return tok[0], int(tok[1:])
 
 
+def around_gen(values, dtype, shape):
+    """Input generator that visits every constant of the pattern, each constant +- a small delta, and the midpoints
+    between neighbouring constants (plus values beyond both ends) — so that picking the wrong bound among several shows."""
+    vs = sorted(set(float(v) for v in values)) or [0.0]
+    pool = set()
+    for v in vs:
+        pool.update([v, v - 1, v + 1] if not dtype.startswith("float") else [v, v - 0.25, v + 0.25, v - 1, v + 1])
+    for a, b in zip(vs, vs[1:]):
+        pool.add((a + b) / 2 if dtype.startswith("float") else float((int(a) + int(b)) // 2))
+    pool.update([vs[0] - 3, vs[-1] + 3, 0.0])
+    pool = np.array(sorted(pool))
+    shape = tuple(int(d) for d in shape)
+    n = int(np.prod(shape)) if shape else 1
+
+    def g(r):
+        # a sliding window over the pool so that 5 draws cover it even for small tensors
+        start = r.randint(0, len(pool))
+        idx = (start + np.arange(n) * max(1, len(pool) // max(n, 1))) % len(pool)
+        if r.random_sample() < 0.5:
+            idx = r.randint(0, len(pool), size=n)
+        return pool[idx].reshape(shape).astype(dtype)
+
+    return g
+
+
 class Family:
     name = ""
     exact = True          # identity-type rewrites are compared bit-exactly
@@ -61,6 +86,7 @@ class Family:
 
 class ClipFam(Family):
     """successive_clip / successive_clip_relu / successive_relu_clip / successive_relu"""
+    n_inputs = 8
 
     def __init__(self, name):
         self.name = name
@@ -121,7 +147,8 @@ class ClipFam(Family):
         hst = Host(opset=10 if c["old"] else 18)
         shape = rank_shape(np.random.RandomState(c["rx"]), c["rx"])
         shape = [2, 1, 3, 2, 3][5 - c["rx"]:] if c["rx"] else []
-        hst.inp("x", dt, shape)
+        consts = [parse_bound(c[k])[1] for k in "abcd" if k in c and parse_bound(c[k])[1] is not None] + [0]
+        hst.inp("x", dt, shape, gen=around_gen(consts, dt, shape))
 
         def clip(src, lo, hi, out, pre):
             if c["old"]:
@@ -212,6 +239,7 @@ class ClipFam(Family):
 
 class MinMaxFam(Family):
     name = "minmax"
+    n_inputs = 10
     rule_keys = ("min_min_rule", "max_max_rule", "min_max_rule", "max_min_rule")
 
     def gen_const(self, rng, scalars_only):
@@ -229,8 +257,24 @@ class MinMaxFam(Family):
         sc = kind in ("maxMin", "minMax")
         n1 = rng.choice([1, 1, 2, 2, 3]) if rng.random() > 0.03 else 0      # variadic Min/Max: several constants per node
         n2 = rng.choice([1, 1, 2, 2, 3]) if rng.random() > 0.03 else 0
+        first = [self.gen_const(rng, sc) for _ in range(n1)]
+        second = [self.gen_const(rng, sc) for _ in range(n2)]
+        if sc and rng.random() < 0.8:
+            # Clip kinds: `np.max([...])` needs same-shaped constants per node, else it raises — keep most nodes homogeneous
+            # (mostly rank 0) so that the variadic reduction itself is exercised
+            def same_rank(toks):
+                r = rng.choice([0, 0, 0, 0, 1])
+                out = []
+                for t in toks:
+                    if t == "n" or "/" in t:
+                        out.append(t)
+                    else:
+                        g = "g" if t.startswith("g") else ""
+                        out.append(f"{g}{r}:{t.split(':')[1]}")
+                return out
+            first, second = same_rank(first), same_rank(second)
         return {"fam": "minmax", "kind": kind, "rx": rng.choice([0, 1, 1, 2, 3]), "dtype": rng.choice([F32, F32, "int32"]),
-                "first": [self.gen_const(rng, sc) for _ in range(n1)], "second": [self.gen_const(rng, sc) for _ in range(n2)],
+                "first": first, "second": second,
                 "origin": rng.choice(["init", "cnode"]), "extra": rng.random() < 0.06, "old": rng.random() < 0.04}
 
     def corpus(self):
@@ -259,7 +303,8 @@ class MinMaxFam(Family):
         if c["old"]:
             dt = F32
         shape = [2, 1, 2, 3][4 - c["rx"]:] if c["rx"] else []
-        hst.inp("x", dt, shape)
+        consts = [v for t in c["first"] + c["second"] if self.ptok(t) is not None for v in self.ptok(t)[2]]
+        hst.inp("x", dt, shape, gen=around_gen(consts, dt, shape))
         ops = {"minMin": ("Min", "Min"), "maxMax": ("Max", "Max"), "maxMin": ("Max", "Min"), "minMax": ("Min", "Max")}[c["kind"]]
 
         def operands(toks, pre):
@@ -1482,8 +1527,7 @@ class ExpandBinFam(Family):
     def finding(self, c):
         if c["op"] == "BitShift" or (c["op"] == "Mod" and c["fmod"]):
             return "C05-N3b"
-        if len(c["e"]) > max(len(c["x"]), len(c["y"])) and c.get("dyn", 0) in (0, 2):
-            return "C05-N3a"
+        # C05-N3a (Expand target longer than both operands) is fixed in /repo (48b48d2): the rule refuses; witness in the corpus
         if c["op"] == "PRelu" and not c["second"]:
             try:
                 if list(np.broadcast_shapes(tuple(c["x"]), tuple(c["y"]))) != list(c["x"]):
